@@ -186,6 +186,9 @@ fn honest_sig(kind: &str, name: &str, n: &NativeV, c: &CircV) -> String {
         "/zk"
     } else if c.label().contains("mmcs-private-data") {
         "/mmcs-path-length"
+    } else if name.contains("subrl-") && c.label().starts_with("build-err:InvalidProofShape") {
+        // a preprocessed column declared row-local: no preprocessed_next opening in the proof
+        "/preprocessed-row-local:build-err-InvalidProofShape"
     } else {
         ""
     };
